@@ -2,7 +2,7 @@
 import ast
 
 from vstat.loader import AnalysisError
-from vstat.terms import builder, show, SELF, NONE, G, alts, walk, mentions, phi, contains
+from vstat.terms import CMP, builder, show, SELF, NONE, G, alts, walk, mentions, phi, contains
 from vstat.guards import path_conditions
 from vstat.dataflow import rd_of
 from vstat.cfg import cfg_of, EXIT
@@ -31,20 +31,21 @@ def run(prog, rep):
     fams = families(prog, include_generic=True)
     for fam in fams:
         if fam.generic:
-            generic(prog, rep, fam)
+            rep.part(generic, prog, rep, fam)
             continue
-        paramflow(prog, rep, fam)
-        slots(prog, rep, fam)
-        siblings(prog, rep, fam)
-    support(prog, rep)
-    pair(prog, rep)
+        rep.part(paramflow, prog, rep, fam)
+        rep.part(slots, prog, rep, fam)
+        rep.part(siblings, prog, rep, fam)
+    rep.part(support, prog, rep)
+    rep.part(pair, prog, rep)
     rep.expect_min("C05.paramflow", 17)
     rep.expect_min("C05.slots", 20)
     rep.expect_min("C05.siblings", 70)
     rep.expect_min("C05.support", 2)
     rep.expect_min("C05.pair", 1)
     rep.expect_min("C05.generic", 5)
-
+    from .purity import row as _stateless_row
+    rep.part(_stateless_row, prog, rep, "C05", 10)
 
 # ---------------------------------------------------------------- paramflow
 def _none_links(pc):
@@ -264,7 +265,7 @@ def _is_support_mask(x, xf):
     """np.where(x > 0, x, nan)"""
     if x[0] == "call" and x[1] == G("numpy.where") and len(x[2]) == 3:
         c, a, bb = x[2]
-        return c == ("cmp", ">", xf, ("const", 0)) and a == xf and bb == G("numpy.nan")
+        return c == CMP(">", xf, ("const", 0)) and a == xf and bb == G("numpy.nan")
     return False
 
 
@@ -319,8 +320,8 @@ def pair(prog, rep):
     for st in cfg_of(fn).all_stmts():
         if isinstance(st, ast.Raise):
             pc = path_conditions(prog, fn, b).of(st)
-            want = ("not", ("cmp", "==", ("isnone", P("mu_norm")), ("isnone", P("sigma_norm"))))
-            want2 = ("not", ("cmp", "==", ("isnone", P("sigma_norm")), ("isnone", P("mu_norm"))))
+            want = ("not", CMP("==", ("isnone", P("mu_norm")), ("isnone", P("sigma_norm"))))
+            want2 = want
             if want in pc or want2 in pc:
                 found = True
     rep.check(found, "C05.pair", "LogNormalNormFitDistribution._get_scipy_parameters:both-or-none", fn.where(),
